@@ -55,7 +55,7 @@ def run_case(case):
     F = fockref.get(norb)
     opts = {}
     if kind == "multislater":
-        opts["ms_ref"] = ["random", "aufbau", "random", "closed"][case["rep"] % 4] if na == nb else ["random", "aufbau"][case["rep"] % 2]
+        opts["ms_ref"] = ["random", "aufbau", "inverted", "closed"][case["rep"] % 4] if na == nb else ["inverted", "aufbau"][case["rep"] % 2]
         if norb >= 5:
             opts["ms_ndets"] = 12
     if kind in ("rhf", "uhf") and case["rep"] % 2 == 1:
